@@ -41,8 +41,11 @@ def oracle(p, o):
                "start_process_with_a_shell", "start_process_with_no_shell", "start_process_with_partial_path", "linux_commands_wildcard_injection"}
         try:
             tree0 = ast.parse(p["src"])
-            ordinary = all(isinstance(a, (ast.Constant, ast.Name)) and not isinstance(getattr(a, "value", ""), (bytes, complex))
-                           for c in ast.walk(tree0) if isinstance(c, ast.Call) for a in list(c.args) + [k.value for k in c.keywords if k.arg])
+            def simple(a):
+                if isinstance(a, ast.UnaryOp) and isinstance(a.op, (ast.USub, ast.UAdd, ast.Not)):
+                    a = a.operand                     # -n, +n, not flag: as ordinary as n
+                return isinstance(a, (ast.Constant, ast.Name)) and not isinstance(getattr(a, "value", ""), (bytes, complex))
+            ordinary = all(simple(a) for c in ast.walk(tree0) if isinstance(c, ast.Call) for a in list(c.args) + [k.value for k in c.keywords if k.arg])
         except SyntaxError:
             ordinary = False
         hit = [e for e in o["errors"] if e[0] in fam]
